@@ -304,7 +304,12 @@ func buildRegistration(r *RNG, s *RegSpec) *RegBuilt {
 	}
 	b.CDJ = cd.JSON(r)
 	if s.d("cd.malformed") {
-		b.CDJ = pick(r, [][]byte{[]byte("{"), []byte("[]"), nil, []byte(`{"type":1}`), b.CDJ[:len(b.CDJ)-1]})
+		// not one JSON object: trailing data after the object (the signature / hash covers exactly these bytes), truncated, another value
+		if r.Bool() {
+			b.CDJ = append(append([]byte{}, b.CDJ...), []byte(pick(r, []string{"x", "{}", " garbage", ",", "}", "\x00", "null", " []"}))...)
+		} else {
+			b.CDJ = pick(r, [][]byte{[]byte("{"), []byte("[]"), nil, []byte(`{"type":1}`), b.CDJ[:len(b.CDJ)-1]})
+		}
 	}
 	b.CDHash = sha(b.CDJ)
 	// authenticator data
@@ -711,7 +716,36 @@ func buildRegistration(r *RNG, s *RegSpec) *RegBuilt {
 				signKey = genKeyPair(r, algRS256)
 			}
 		}
-		jws := makeJWS(signKey, payload, [][]byte{leaf, caCert.Raw}, !s.d("sn.noX5c"))
+		if s.d("sn.nonceNotBase64") {
+			// the nonce member is not standard padded base64 (URL alphabet without padding, hex, a number)
+			payload, _ = json.Marshal(M{"nonce": pick(r, []any{strings.TrimRight(base64.URLEncoding.EncodeToString(nonce), "=") + "-_", hx(nonce) + "z", 12345}), "timestampMs": time.Now().UnixMilli(), "ctsProfileMatch": true})
+		}
+		chain := [][]byte{leaf, caCert.Raw}
+		if s.d("sn.leafSecond") {
+			chain = [][]byte{caCert.Raw, leaf}
+		}
+		jws := makeJWS(signKey, payload, chain, !s.d("sn.noX5c"))
+		if s.d("sn.critUnknown") {
+			jws = makeJWSWith(signKey, payload, chain, map[jose.HeaderKey]any{"crit": []string{"exp"}, "exp": 1})
+		}
+		if s.d("sn.payloadAltered") {
+			// another payload under the same signature: the nonce stays right, the signed bytes do not
+			other, _ := json.Marshal(M{"nonce": stdB64(nonce), "timestampMs": time.Now().UnixMilli() + 1, "ctsProfileMatch": true, "basicIntegrity": true})
+			parts := strings.Split(jws, ".")
+			parts[1] = b64u(other)
+			jws = strings.Join(parts, ".")
+		}
+		if s.d("sn.unsigned") {
+			// no signature: empty third part, or alg "none"
+			parts := strings.Split(jws, ".")
+			if r.Bool() {
+				parts[2] = ""
+			} else {
+				hdr, _ := json.Marshal(M{"alg": "none", "x5c": []string{stdB64(leaf), stdB64(caCert.Raw)}})
+				parts[0], parts[2] = b64u(hdr), ""
+			}
+			jws = strings.Join(parts, ".")
+		}
 		if s.d("sig.bitflip") {
 			bs := []byte(jws)
 			bs[len(bs)-3] ^= 1
@@ -744,6 +778,15 @@ func selfSigned(k *KeyPair, dns string) []byte {
 }
 
 func makeJWS(k *KeyPair, payload []byte, chain [][]byte, withX5c bool) string {
+	if !withX5c {
+		chain = nil
+	}
+	return makeJWSWith(k, payload, chain, nil)
+}
+
+// makeJWSWith: compact JWS of payload under k, x5c = chain (none when nil), further protected header members
+func makeJWSWith(k *KeyPair, payload []byte, chain [][]byte, extra map[jose.HeaderKey]any) string {
+	withX5c := chain != nil
 	var alg jose.SignatureAlgorithm
 	var key any
 	switch k.Kind {
@@ -766,6 +809,9 @@ func makeJWS(k *KeyPair, payload []byte, chain [][]byte, withX5c bool) string {
 			x5c = append(x5c, stdB64(d))
 		}
 		opts = opts.WithHeader("x5c", x5c)
+	}
+	for hk, hv := range extra {
+		opts = opts.WithHeader(hk, hv)
 	}
 	signer, err := jose.NewSigner(jose.SigningKey{Algorithm: alg, Key: key}, opts)
 	if err != nil {
